@@ -448,6 +448,17 @@ def r13_4(ctx: Ctx, with_equivalence: bool = False, strict_ties: bool = False):
                 rv = _const_fold(_simplify_bool(G().visit(E)))
                 rets = rets[-1:]
         want_args = [f"{sn}.fitness", f"{other}.fitness"]
+        if rv is not None:
+            class _StripEval(ast.NodeTransformer):
+                """X.evaluate() returns X: irrelevant for which values are compared (its side effect is other rules' concern)"""
+
+                def visit_Call(self, node):
+                    self.generic_visit(node)
+                    if isinstance(node.func, ast.Attribute) and node.func.attr == "evaluate" and not node.args and isinstance(node.func.value, ast.Name) and node.func.value.id in (sn, other):
+                        return node.func.value
+                    return node
+
+            rv = _StripEval().visit(rv)
         st = INCONCLUSIVE
         if isinstance(rv, ast.Call) and norm(rv.func) in (f"{sn}.problem.{target}", f"{sn}._problem.{target}") and [canon(a) for a in rv.args] == want_args:
             st = OK
